@@ -193,18 +193,25 @@ RefFlowNoWiden(case, reach, u, R) ==
 (*   of ok); FakeBase + j = j-th fake definition node (_ConstrainedValue); *)
 (*   Uninit = _UNINITIALIZED                                               *)
 (*   st.cur   name_to_current_definition_nodes  [x, ok, lv (LEAVES_SCOPE)] *)
-(*   st.fk    fake nodes  [defs |-> definition nodes restricted, con |-> constraint] *)
+(*   st.fk    fake nodes  [key, defs |-> definition nodes restricted, con |-> constraint]; key = (statement, visit tag,   *)
+(*            identity of the Constraint object): _add_single_constraint uses (node, constraint) as the dictionary key,    *)
+(*            so applying the SAME constraint object at the same statement again (a saved condition tested inside a     *)
+(*            loop body, on its second visit) overwrites the node -- its new definition nodes may then reach itself    *)
 (*   st.okv   value stored by the assignment of ok at token i: the          *)
 (*            ConstraintExtension it carries [null, con, org, id]           *)
 (*   st.uses  usage_to_definition_nodes of the recorded reads of x          *)
 (*   st.nc    number of Constraint objects created (object identity)        *)
 (*   st.fx    names of the proposed repairs assumed applied                 *)
 (*   st.dr    number of constraints the origin guard dropped (statistics)   *)
+(*   st.ov    number of fake nodes overwritten (statistics)                 *)
 (***************************************************************************)
 FakeBase == 1000
 Uninit == 999
-NullAlt == [null |-> TRUE, con |-> NullCon, org |-> {}, id |-> 0]
-Leaf(con, org, id) == [null |-> FALSE, con |-> con, org |-> org, id |-> id]
+\* a concrete constraint with the origin of its variable; <<id, ninv>> is the identity of the Constraint OBJECT: id numbers the
+\* objects created by evaluating a condition, ninv counts .invert() calls (Constraint.invert caches its result on the object,
+\* so the inverse of an object is always the same object, and the inverse of that inverse is a third object)
+NullAlt == [null |-> TRUE, con |-> NullCon, org |-> {}, id |-> 0, ninv |-> 0]
+Leaf(con, org, id) == [null |-> FALSE, con |-> con, org |-> org, id |-> id, ninv |-> 0]
 
 RECURSIVE FUniq(_, _)
 FUniq(s, acc) == IF s = << >> THEN acc
@@ -212,32 +219,45 @@ FUniq(s, acc) == IF s = << >> THEN acc
 Uniq(s) == FUniq(s, << >>)
 
 ImplInit(case, fixed) ==
-    [fx |-> fixed, dr |-> 0, cur |-> [x |-> <<0>>, ok |-> << >>, lv |-> FALSE], fk |-> << >>,
+    [fx |-> fixed, dr |-> 0, ov |-> 0, cur |-> [x |-> <<0>>, ok |-> << >>, lv |-> FALSE], fk |-> << >>,
      okv |-> [i \in 1..Len(case.toks) |-> NullAlt], uses |-> [i \in 1..Len(case.toks) |-> << >>], nc |-> 0]
 
-\* FunctionScope._resolve_origin (stacked_scopes.py:1082): the real definition nodes behind a list of nodes
-RECURSIVE ImplResolveOrigin(_, _)
-ImplResolveOrigin(st, ids) ==
-    IF ids = << >> THEN {}
-    ELSE LET h == Head(ids)
-         IN (IF h >= FakeBase THEN ImplResolveOrigin(st, st.fk[h - FakeBase].defs) ELSE {h})
-            \cup ImplResolveOrigin(st, Tail(ids))
+\* FunctionScope._resolve_origin (stacked_scopes.py:1082): the real definition nodes behind a list of nodes (work list with
+\* a seen set: fake nodes may form cycles)
+RECURSIVE ImplResolveOriginW(_, _, _, _)
+ImplResolveOriginW(st, pending, seen, out) ==
+    IF pending = {} THEN out
+    ELSE LET h == CHOOSE x \in pending : TRUE
+             rest == pending \ {h}
+         IN IF h \in seen THEN ImplResolveOriginW(st, rest, seen, out)
+            ELSE IF h >= FakeBase
+                 THEN ImplResolveOriginW(st, rest \cup {st.fk[h - FakeBase].defs[k] : k \in 1..Len(st.fk[h - FakeBase].defs)}, seen \cup {h}, out)
+                 ELSE ImplResolveOriginW(st, rest, seen \cup {h}, out \cup {h})
+ImplResolveOrigin(st, ids) == ImplResolveOriginW(st, {ids[k] : k \in 1..Len(ids)}, {}, {})
 
 \* FunctionScope._add_single_constraint (stacked_scopes.py:1058)
 ImplOriginGuard(current, constraint_set) ==
     CASE FBug = "guard_reversed" -> constraint_set \subseteq current        \* seeded-bug family: subset test the wrong way round
       [] FBug = "guard_removed" -> TRUE
       [] OTHER -> current \ constraint_set = {}                             \* :1067 if current_set - constraint_set: return
-ImplAddSingle(st, leaf) ==
+\* nk = <<token index of the statement, visit tag>>: the `node` argument ("0" an if, "1" / "2" the two visits of a while,
+\* "b" the right operand of and / or)
+ImplAddSingle(st, leaf, nk) ==
     LET current == ImplResolveOrigin(st, st.cur.x)                          \* :1064 get_origin + _resolve_origin
+        \* :1076 node = (node, constraint); with proposed/C02-fix-5.diff the key is unique per application
+        key == <<nk[1], nk[2], leaf.id, leaf.ninv, IF "fresh_fake_nodes" \in st.fx THEN Len(st.fk) + 1 ELSE 0>>
+        old == {j \in 1..Len(st.fk) : st.fk[j].key = key}
+        j == IF old = {} THEN Len(st.fk) + 1 ELSE CHOOSE k \in old : TRUE
+        node == [key |-> key, defs |-> Uniq(st.cur.x), con |-> leaf.con]    \* :1077 _ConstrainedValue(def_nodes, [constraint])
     IN IF ~ImplOriginGuard(current, leaf.org) THEN [st EXCEPT !.dr = @ + 1]                \* dropped (dr only counts, for the evidence)
-       ELSE [st EXCEPT !.fk = Append(@, [defs |-> Uniq(st.cur.x), con |-> leaf.con]),      \* :1077 _ConstrainedValue(def_nodes, [constraint])
-                       !.cur.x = <<FakeBase + Len(st.fk) + 1>>]                             \* :1079
+       ELSE [st EXCEPT !.fk = IF old = {} THEN Append(@, node) ELSE [@ EXCEPT ![j] = node],  \* :1078 definition_node_to_value[node] = val
+                       !.ov = @ + (IF old = {} THEN 0 ELSE 1),
+                       !.cur.x = <<FakeBase + j>>]                                           \* :1079
 \* FunctionScope.add_constraint (:1041): every concrete constraint of abstract_constraint.apply()
-RECURSIVE ImplAddCons(_, _)
-ImplAddCons(st, leaves) == IF leaves = << >> THEN st ELSE ImplAddCons(ImplAddSingle(st, Head(leaves)), Tail(leaves))
+RECURSIVE ImplAddCons(_, _, _)
+ImplAddCons(st, leaves, nk) == IF leaves = << >> THEN st ELSE ImplAddCons(ImplAddSingle(st, Head(leaves), nk), Tail(leaves), nk)
 
-InvLeaf(l) == [l EXCEPT !.con.pos = ~@]                                     \* Constraint.invert (:308)
+InvLeaf(l) == [l EXCEPT !.con.pos = ~@, !.ninv = @ + 1]                     \* Constraint.invert (:308), cached on the object
 
 \* the constraint a condition on x evaluates to, with the origin of x at this moment
 \* (composite_from_name: VarnameWithOrigin(node.id, origin); _isinstance_impl / _constraint_from_compare_op; visit_UnaryOp inverts)
@@ -250,23 +270,23 @@ ImplOkAlts(st) == Uniq([i \in 1..Len(st.cur.ok) |-> IF st.cur.ok[i] = Uninit THE
 \* extract_constraints (stacked_scopes.py:1604) of the value of ok, then .apply():
 \*  one value: its constraint;  a union: OrConstraint.make(...) -- OrConstraint.apply (:601) yields a one_of constraint
 \*  for a VarnameWithOrigin (name AND origin) that every alternative constrains; NULL_CONSTRAINT constrains nothing
-ImplSavedPos(alts) ==
+ImplSavedPos(alts, newid) ==
     IF Len(alts) = 1 THEN (IF alts[1].null THEN << >> ELSE <<alts[1]>>)
     ELSE IF \E i \in 1..Len(alts) : alts[i].null THEN << >>
     ELSE IF \A i \in 1..Len(alts) : alts[i].org = alts[1].org
-         THEN <<Leaf(ConOneOf("x", [i \in 1..Len(alts) |-> alts[i].con]), alts[1].org, 0)>>
+         THEN <<Leaf(ConOneOf("x", [i \in 1..Len(alts) |-> alts[i].con]), alts[1].org, newid)>>   \* a new Constraint object per apply()
     ELSE << >>
 \*  inverted: Constraint.invert / OrConstraint.invert (:635) = AndConstraint of the inverted alternatives, whose apply
 \*  yields every one of them (NULL_CONSTRAINT inverts to itself and yields nothing)
-ImplSavedNeg(alts, fixed) ==
+ImplSavedNeg(alts, fixed, newid) ==
     IF Len(alts) > 1 /\ "alternatives_not_conjoined" \in fixed
-    THEN ImplSavedPos([i \in 1..Len(alts) |-> IF alts[i].null THEN alts[i] ELSE InvLeaf(alts[i])])   \* proposed/C02-fix-4.diff
+    THEN ImplSavedPos([i \in 1..Len(alts) |-> IF alts[i].null THEN alts[i] ELSE InvLeaf(alts[i])], newid)   \* proposed/C02-fix-4.diff
     ELSE LET real == SelectSeq(alts, LAMBDA a : ~a.null) IN [i \in 1..Len(real) |-> InvLeaf(real[i])]
 
 \* visit_BoolOp (name_check_visitor.py:3424) for `c and U(i, x)` / `c or U(i, x)`: the right operand is visited in a
 \* nested subscope under c (and) / c inverted (or); both subscopes are then combined
 ImplBoolOp(st, tok, i, leaf) ==
-    LET inner == ImplAddSingle(st, IF tok.t = "ifand" THEN leaf ELSE InvLeaf(leaf))
+    LET inner == ImplAddSingle(st, IF tok.t = "ifand" THEN leaf ELSE InvLeaf(leaf), <<i, "b">>)
         used == [inner EXCEPT !.uses[i] = @ \o inner.cur.x]
     IN [used EXCEPT !.cur.x = Uniq(st.cur.x \o inner.cur.x), !.nc = st.nc + 1]          \* combine_subscopes([scope1, scope2])
 
@@ -278,8 +298,10 @@ ImplEvalCond(st, tok, i) ==
       [] tok.t \in {"ifok", "whok"} ->
            \* _visit_possible_constraint: EquivalentConstraint(is_truthy(ok), extract_constraints(value of ok)); `not ok` inverts it
            LET alts == ImplOkAlts(st)
-           IN IF tok.c = NoCond THEN [st |-> st, pos |-> ImplSavedPos(alts), neg |-> ImplSavedNeg(alts, st.fx)]
-              ELSE [st |-> st, pos |-> ImplSavedNeg(alts, st.fx), neg |-> ImplSavedPos(alts)]
+               s2 == [st EXCEPT !.nc = @ + 2]
+               p == ImplSavedPos(alts, st.nc + 1)
+               n == ImplSavedNeg(alts, st.fx, st.nc + 2)
+           IN IF tok.c = NoCond THEN [st |-> s2, pos |-> p, neg |-> n] ELSE [st |-> s2, pos |-> n, neg |-> p]
       [] tok.t = "ifwal" ->
            \* composite_from_walrus: ok is bound to the value of c; the test is AndConstraint(c, is_truthy(ok)), whose
            \* inverse is an OrConstraint over two different variables: nothing for x in the else branch
@@ -315,19 +337,19 @@ ImplSimple(st, toks, i) ==
 ImplIf(st, toks, i, tlo, thi, elo, ehi) ==
     LET ev == ImplEvalCond(st, toks[i], i)
         outer == ev.st.cur
-        sb == ImplRange(ImplAddCons(ev.st, ev.pos), toks, tlo, thi)                         \* subscope: a copy of the outer scope
-        se == ImplRange(ImplAddCons([sb EXCEPT !.cur = outer], ev.neg), toks, elo, ehi)
+        sb == ImplRange(ImplAddCons(ev.st, ev.pos, <<i, "0">>), toks, tlo, thi)             \* subscope: a copy of the outer scope
+        se == ImplRange(ImplAddCons([sb EXCEPT !.cur = outer], ev.neg, <<i, "0">>), toks, elo, ehi)
     IN [se EXCEPT !.cur = ImplCombine(outer, <<sb.cur, se.cur>>)]
 \* visit_While (:4262): test, body under the test, merge with the not-entered path; while collecting the test is
 \* evaluated again on the merged scope and the body visited again in a subscope that is thrown away
 ImplWhile(st, toks, i, lo, hi) ==
     LET ev1 == ImplEvalCond(st, toks[i], i)
         outer == ev1.st.cur
-        s1 == ImplRange(ImplAddCons(ev1.st, ev1.pos), toks, lo, hi)
+        s1 == ImplRange(ImplAddCons(ev1.st, ev1.pos, <<i, "1">>), toks, lo, hi)              \* add_constraint((node, 1), constraint)
         merged == ImplCombine(outer, <<s1.cur, outer>>)                                     \* _handle_loop_else: [body_scope, else_scope]
         s2 == [s1 EXCEPT !.cur = merged]
         ev2 == ImplEvalCond(s2, toks[i], i)
-        s3 == ImplRange(ImplAddCons(ev2.st, ev2.pos), toks, lo, hi)
+        s3 == ImplRange(ImplAddCons(ev2.st, ev2.pos, <<i, "2">>), toks, lo, hi)              \* add_constraint((node, 2), constraint)
     IN IF FBug = "visit_once" THEN s2 ELSE [s3 EXCEPT !.cur = merged]
 ImplRange(st, toks, i, j) ==
     IF i > j THEN st
@@ -343,18 +365,25 @@ ImplRunWith(case, fixed) == ImplRange(ImplInit(case, fixed), case.toks, 1, Len(c
 ImplRun(case) == ImplRunWith(case, FFixed)
 
 \* FunctionScope._get_value_from_nodes / _resolve_value (:1293 / :1323): the values of the (de-duplicated) nodes, a fake
-\* node being the constrained union of the values of the nodes it restricts; _constrain_value flattens unions first
-RECURSIVE ImplNodeValues(_, _, _)
+\* node being the constrained union of the values of the nodes it restricts; _constrain_value flattens unions first.
+\* _resolve_value keeps a cache per (fake node, use): on entry the cache holds NO_RETURN_VALUE ("guard against recursion"),
+\* which a definition cycle reads -- and whatever was computed from that placeholder stays cached.
 ImplFlowConstrain(vals, cons) ==
     LET r == ImplApplyAll(cons, Flatten(vals)) IN IF r = << >> THEN Never ELSE ImplUnite(r)
-ImplNodeValues(case, st, ids) ==
-    IF ids = << >> THEN << >>
+RECURSIVE ImplResolveNodes(_, _, _, _)
+ImplResolveNodes(case, st, ids, cache) ==
+    IF ids = << >> THEN [vals |-> << >>, cache |-> cache]
     ELSE LET h == Head(ids)
-             v == IF h >= FakeBase
-                  THEN ImplFlowConstrain(ImplNodeValues(case, st, Uniq(st.fk[h - FakeBase].defs)), <<st.fk[h - FakeBase].con>>)
-                  ELSE IF h = 0 THEN case.decl ELSE Known(case.toks[h].d)
-         IN <<v>> \o ImplNodeValues(case, st, Tail(ids))
-ImplInferredAt(case, st, u) == ImplFlowConstrain(ImplNodeValues(case, st, Uniq(st.uses[u])), << >>)
+             j == h - FakeBase
+             one == IF h < FakeBase THEN [v |-> IF h = 0 THEN case.decl ELSE Known(case.toks[h].d), cache |-> cache]
+                    ELSE IF cache[j].set THEN [v |-> cache[j].v, cache |-> cache]                          \* :1299
+                    ELSE LET r == ImplResolveNodes(case, st, Uniq(st.fk[j].defs), [cache EXCEPT ![j] = [set |-> TRUE, v |-> Never]])   \* :1303
+                             v == ImplFlowConstrain(r.vals, <<st.fk[j].con>>)
+                         IN [v |-> v, cache |-> [r.cache EXCEPT ![j] = [set |-> TRUE, v |-> v]]]             \* :1318
+             rest == ImplResolveNodes(case, st, Tail(ids), one.cache)
+         IN [vals |-> <<one.v>> \o rest.vals, cache |-> rest.cache]
+ImplInferredAt(case, st, u) ==
+    ImplFlowConstrain(ImplResolveNodes(case, st, Uniq(st.uses[u]), [j \in 1..Len(st.fk) |-> [set |-> FALSE, v |-> Never]]).vals, << >>)
 
 (***************************************************************************)
 (* Known deviation of the current code                                     *)
@@ -367,10 +396,22 @@ ImplInferredAt(case, st, u) == ImplFlowConstrain(ImplNodeValues(case, st, Uniq(s
 (*  altogether).  Class = the objects lost at a use by the model of the    *)
 (*  code as found and kept by the model with the repair.                   *)
 (***************************************************************************)
+FlowKeptWith(case, u, o, fixes) == Member(o, ImplInferredAt(case, ImplRunWith(case, FFixed \cup fixes), u))
 Dev_SavedAlternativesConjoined(case, u, o) ==
-    /\ ~Member(o, ImplInferredAt(case, ImplRun(case), u))
-    /\ Member(o, ImplInferredAt(case, ImplRunWith(case, FFixed \cup {"alternatives_not_conjoined"}), u))
-FlowDevClass(case, u, o) == IF Dev_SavedAlternativesConjoined(case, u, o) THEN "saved-alternatives-negated-as-conjunction" ELSE ""
+    ~FlowKeptWith(case, u, o, {}) /\ FlowKeptWith(case, u, o, {"alternatives_not_conjoined"})
+\* 2. _add_single_constraint keys a fake definition node by (statement, Constraint object).  A saved condition tested inside a
+\*    loop body applies the SAME object on the second visit of the body: the node is overwritten, and the definition nodes it
+\*    now restricts (the merged state after the first visit) reach the node itself.  _resolve_value breaks the cycle with a
+\*    NO_RETURN_VALUE placeholder and caches what was computed from it, so a read after the inner test can resolve to Never.
+\*    Class = the objects lost by the model of the code as found and kept by the model in which every application creates
+\*    its own node (proposed/C02-fix-5.diff), alone or together with repair 4.
+Dev_FakeNodeReusedOnRevisit(case, u, o) ==
+    /\ ~FlowKeptWith(case, u, o, {})
+    /\ FlowKeptWith(case, u, o, {"fresh_fake_nodes"}) \/ FlowKeptWith(case, u, o, {"fresh_fake_nodes", "alternatives_not_conjoined"})
+FlowDevClass(case, u, o) ==
+    IF Dev_SavedAlternativesConjoined(case, u, o) THEN "saved-alternatives-negated-as-conjunction"
+    ELSE IF Dev_FakeNodeReusedOnRevisit(case, u, o) THEN "constraint-node-reused-on-loop-revisit"
+    ELSE ""
 
 \* verdict of FlowN1 at one use given the inferred type R: "ok", "dev:<class>", "viol"
 FlowN1Verdict(case, seen, u, R) ==
